@@ -14,8 +14,9 @@ from pyasn1.codec.streaming import asSeekableStream
 from pyasn1.codec.streaming import isEndOfStream
 from pyasn1.codec.streaming import peekIntoStream
 from pyasn1.codec.streaming import readFromStream
+from pyasn1.compat import integer
 from pyasn1.compat.integer import from_bytes
-from pyasn1.compat.octets import oct2int, octs2ints, ints2octs, null
+from pyasn1.compat.octets import int2oct, oct2int, octs2ints, ints2octs, null
 from pyasn1.error import PyAsn1Error
 from pyasn1.type import base
 from pyasn1.type import char
@@ -180,7 +181,12 @@ class BitStringPayloadDecoder(AbstractSimplePayloadDecoder):
                      decodeFun=None, substrateFun=None,
                      **options):
 
-        if substrateFun:
+        # a constructed fragment of a constructed string is assembled from
+        # its own fragments, not taken as raw octets
+        isFragment = substrateFun is self.substrateCollector
+
+        if substrateFun and (not isFragment or
+                             tagSet[0].tagFormat == tag.tagFormatSimple):
             asn1Object = self._createComponent(asn1Spec, tagSet, noValue, **options)
 
             for chunk in substrateFun(asn1Object, substrate, length, options):
@@ -188,7 +194,7 @@ class BitStringPayloadDecoder(AbstractSimplePayloadDecoder):
 
             return
 
-        if not length:
+        if not length and not isFragment:
             raise error.PyAsn1Error('Empty BIT STRING substrate')
 
         if tagSet[0].tagFormat == tag.tagFormatSimple:  # XXX what tag to check?
@@ -249,14 +255,28 @@ class BitStringPayloadDecoder(AbstractSimplePayloadDecoder):
                 prepend=bitString, padding=trailingBits
             )
 
+        if isFragment:
+            yield self._asFragment(bitString)
+            return
+
         yield self._createComponent(asn1Spec, tagSet, bitString, **options)
+
+    @staticmethod
+    def _asFragment(bitString):
+        # initial octet (number of unused bits) followed by the bits
+        padding = -len(bitString) % 8
+
+        return int2oct(padding) + integer.to_bytes(
+            int(bitString) << padding, length=len(bitString) + padding)
 
     def indefLenValueDecoder(self, substrate, asn1Spec,
                              tagSet=None, length=None, state=None,
                              decodeFun=None, substrateFun=None,
                              **options):
 
-        if substrateFun:
+        isFragment = substrateFun is self.substrateCollector
+
+        if substrateFun and not isFragment:
             asn1Object = self._createComponent(asn1Spec, tagSet, noValue, **options)
 
             for chunk in substrateFun(asn1Object, substrate, length, options):
@@ -297,6 +317,10 @@ class BitStringPayloadDecoder(AbstractSimplePayloadDecoder):
                 component[1:], internalFormat=True,
                 prepend=bitString, padding=trailingBits
             )
+
+        if isFragment:
+            yield self._asFragment(bitString)
+            return
 
         yield self._createComponent(asn1Spec, tagSet, bitString, **options)
 
